@@ -113,6 +113,14 @@ def gen(rng, count, sizes):
         else:
             data = [abs(x) for x in C.data_family(rng, n, nb, rng.choice(["gauss", "noise"]), 0)]
             seq = ["x", "y", "i", "v0", "v1", "p", "c", "p", "v0", "v1", "p"]
+        if k % 10 == 1:
+            # exact case: total charge exactly 1 but the two bunches hold 5/8 and 3/8 of it instead of the set halves
+            # (4x4 cells, box width 9 => cell size 3, Simpson weights 1,4,2,1: every sum is exact in binary32);
+            # renormalisation must still restore the shares
+            rec.update(kind="norm", n=4, nb=2, box=[f32(-4.5), f32(4.5), f32(-4.5), f32(4.5)], fset=[0.5, 0.5])
+            n, nb, box, fset = 4, 2, rec["box"], rec["fset"]
+            data = [5.0 / 512] * 16 + [3.0 / 512] * 16
+            seq = ["x", "N", "x", "y", "i", "p"]
         rec["data"] = data
         rec["seq"] = seq
         rec["optext"] = ps_case(cid, rec["n"], nb, box, fset, data, seq)
